@@ -103,7 +103,7 @@ def storage_partition(torch, obj):
     return out
 
 
-def synthetic_zip(path, markers, deep, leading_junk=b"", trailing=b"", filler=0, dirname="archive"):
+def synthetic_zip(path, markers, deep, leading_junk=b"", trailing=b"", filler=0, dirname="archive", version=b"3\n"):
     """A zip whose member names are exactly the chosen marker names (at root or one directory deep).
     filler: that many small records in front of the markers (torch writes the tensor records first)."""
     buf = io.BytesIO()
@@ -116,7 +116,7 @@ def synthetic_zip(path, markers, deep, leading_junk=b"", trailing=b"", filler=0,
             if m.endswith(".pkl"):
                 body = b"\x80\x02]q\x00(K\x01K\x02e."
             elif m == "version":
-                body = b"3\n"
+                body = version
             else:
                 body = b"{}"
             z.writestr(name, body)
